@@ -187,7 +187,9 @@ def random_exec(rng: PlanRng, n_u, n_base, mode, max_n=None):
     bs = rng.choice([None, 1, "full"] + list(range(2, n + 3)),
                     p=[0.5, 0.5, 1.5] + [1.0] * (n + 1))
     ex = {"seq": [int(i) for i in seq], "bs": bs, "warm": rng.coin(0.75),
-          "kinds": sorted(set(kinds))}
+          "kinds": sorted(set(kinds)),
+          # memory layout / container of the arrays handed to the call (values identical)
+          "layout": rng.choice(["C", "F", "strided", "list", "readonly"], p=[5, 2, 1, 1, 1])}
     if mode == "faults" and rng.coin(0.6):
         ex["fault"] = {"kind": "solver_error", "k": rng.integers(0, 12)}
     return ex
@@ -231,7 +233,8 @@ def generate(rs, mode, tier, index):
     execs = []
     if mode == "grid":
         # the cell itself with the identity stream, then perturbed streams at the same (n, bs)
-        execs.append({"seq": list(range(n_base)), "bs": bs, "warm": True, "kinds": []})
+        execs.append({"seq": list(range(n_base)), "bs": bs, "warm": True, "kinds": [],
+                      "layout": "C"})
         e = random_exec(rng, n_u, n_base, mode)
         if len(e["seq"]) == n_base:
             e["bs"] = bs
@@ -338,14 +341,31 @@ def row_L1(plan, est, idx):
     return None
 
 
-def run_fit(plan, est, seq, bs, l1_all=None, kw_override=None):
+def as_layout(a, layout):
+    """Same values, different container / memory layout."""
+    a = np.array(a, dtype=float, copy=True)
+    if layout == "F":
+        return np.asfortranarray(a)
+    if layout == "strided":
+        big = np.zeros((a.shape[0] * 2, a.shape[1] * 2))
+        big[::2, ::2] = a
+        return big[::2, ::2]
+    if layout == "list":
+        return a.tolist()
+    if layout == "readonly":
+        a.setflags(write=False)
+        return a
+    return a
+
+
+def run_fit(plan, est, seq, bs, l1_all=None, kw_override=None, layout="C"):
     """One fitting call on the stream U[seq]. Returns (X, B_pred)."""
     U = plan["U"]
-    Bp = U[seq]
+    Bp = as_layout(U[seq], layout)
     kw = opt_kwargs(plan) if kw_override is None else dict(kw_override)
     proc = plan["proc"]
     if plan["W"] is not None:
-        est.register_targets(Bp, plan["W"][seq])
+        est.register_targets(Bp, as_layout(plan["W"][seq], layout if layout != "list" else "C"))
         if proc == "minimize_variance":
             if l1_all is not None:
                 kw["L1"] = l1_all[seq]
@@ -466,11 +486,11 @@ def execute(plan):
             if fault:
                 # learn the solve count of this call, then fail its k-th solve
                 with SolveSeam(cold=not ex["warm"]) as s0:
-                    r_clean = call(run_fit, plan, est, seq, bs, l1_all)
+                    r_clean = call(run_fit, plan, est, seq, bs, l1_all, None, ex.get("layout", "C"))
                 steps += s0.count
                 k = fault["k"] % s0.count if s0.count else 0
                 with SolveSeam(fail_at={k}, cold=not ex["warm"]) as s1:
-                    r_f = call(run_fit, plan, est, seq, bs, l1_all)
+                    r_f = call(run_fit, plan, est, seq, bs, l1_all, None, ex.get("layout", "C"))
                 steps += s1.count
                 if s1.fired:
                     bump("fault:solver_error")
@@ -487,7 +507,7 @@ def execute(plan):
                                     f"{r_f.brief()}", ex=ex)
                 # hidden state after an aborted solve sequence: the same call again, unfaulted
             with SolveSeam(cold=not ex["warm"]) as seam:
-                out = call(run_fit, plan, est, seq, bs, l1_all)
+                out = call(run_fit, plan, est, seq, bs, l1_all, None, ex.get("layout", "C"))
             steps += seam.count
             log.add(ei, "exec", out)
             # trace monitor (evidence only): which batch structure did the code really run?
@@ -507,7 +527,7 @@ def execute(plan):
                     r1 = call(run_fit, plan, est, list(range(n_u)), 1, l1_all, alt)
                     if not r1.ok:
                         continue           # inconclusive under these settings
-                    r2 = call(run_fit, plan, est, seq, bs, l1_all, alt)
+                    r2 = call(run_fit, plan, est, seq, bs, l1_all, alt, ex.get("layout", "C"))
                     verdicts.append(r2.ok)
                 if verdicts and any(verdicts):
                     bump("solver_tolerance_failure_not_attributed:" + proc)
@@ -535,7 +555,7 @@ def execute(plan):
             if nontriv:
                 cov.append((proc, n, bc, tuple(ex["kinds"]), plan["W"] is not None,
                             s["base_kind"], plan["cfg"], ex["warm"], bool(fault),
-                            bool(unique_x), plan.get("L1") is not None))
+                            bool(unique_x), plan.get("L1") is not None, ex.get("layout", "C")))
     except Violation as v:
         violation = v.as_dict()
     bump("executions", len(plan["execs"]))
@@ -569,6 +589,13 @@ def candidates(plan):
         # drop the fault
         if "fault" in e:
             e2 = {k: v for k, v in e.items() if k != "fault"}
+            p = dict(plan)
+            p["execs"] = ex[:i] + [e2] + ex[i + 1:]
+            yield p
+        # plain C-ordered arrays
+        if e.get("layout", "C") != "C":
+            e2 = dict(e)
+            e2["layout"] = "C"
             p = dict(plan)
             p["execs"] = ex[:i] + [e2] + ex[i + 1:]
             yield p
